@@ -84,54 +84,102 @@ def run(chk: Check) -> None:
     chk.ob('PROV-auto-persist-copy', ap, any(norm(c.func) == 'cls._auto_persist.update' and [norm(a) for a in c.args] in ([f'*{ap.node.args.vararg.arg}'], [ap.node.args.vararg.arg]) for c in calls_in_func(ap)),
            'Savable.auto_persist adds exactly the named members', kind='adds-members')
 
-    # member kinds: save_members <-> _get_value
+    # member kinds: save_members <-> _get_value, as decision tables (any spelling: if/elif, early returns, extracted helper)
+    from ..decisions import leaf, paths_under, valuations, value_on_path
     sm = prog.func('persistence.Savable.save_members')
     gv = prog.func('persistence.Savable._get_value')
-    tags_saved = {}
-    for n in ast.walk(sm.node):
-        if isinstance(n, ast.If):
-            cur = n
-            while True:
-                test = norm(cur.test)
-                tag = None
-                for c in [x for s in cur.body for x in ast.walk(s) if isinstance(x, ast.Call) and last_name(x) == '_set_meta_type']:
-                    tag = prog.fold(sm.module, c.args[2]) if len(c.args) >= 3 else None
-                conv = [s for s in cur.body if isinstance(s, ast.Assign) and norm(s.targets[0]) == 'value']
-                tags_saved[test] = (tag, norm(conv[0].value) if conv else None, cur)
-                if len(cur.orelse) == 1 and isinstance(cur.orelse[0], ast.If):
-                    cur = cur.orelse[0]
+    ffs = chk.ctx.facts.analyse(sm)
+    scfg = ffs.cfg
+    store_nodes = [n for n in scfg.nodes if n.kind == 'stmt' and isinstance(n.ast, ast.Assign) and isinstance(n.ast.targets[0], ast.Subscript)
+                   and norm(n.ast.targets[0].value) == sm.params[2]]
+    chk.ob('TAB-member-kinds', sm, len({id(n.ast) for n in store_nodes}) == 1, 'every member is stored at one site', kind='stored-under-name')
+    tags = {}
+    tables = {'save': [], 'tags': []}
+    ism = [c for c in calls_in_func(sm) if norm(c.func) in ('inspect.ismethod', 'ismethod')]
+    isv = [c for c in calls_in_func(sm) if norm(c.func) == 'isinstance' and len(c.args) == 2 and norm(c.args[1]).split('.')[-1] == 'Savable']
+    ok_shape = len(ism) == 1 and len(isv) == 1 and bool(store_nodes)
+    chk.ob('TAB-member-kinds', sm, ok_shape, 'save_members tells methods and Savables apart from plain values', kind='kinds-tested')
+    m_tag = s_tag = None
+    if ok_shape:
+        M, S = leaf(ffs, ism[0])[0], leaf(ffs, isv[0])[0]
+        subj = norm(ism[0].args[0])
+        loopvar = norm(store_nodes[0].ast.targets[0].slice)
+        chk.ob('TAB-member-kinds', sm, norm(isv[0].args[0]) == subj, 'both tests look at the same value', kind='same-subject')
+        dev = []
+        seen_kinds = set()
+        for val in valuations([M, S], lambda v: not (v[M] and v[S])):
+            for path in paths_under(ffs, val, frozen=[subj]):
+                idx = [i for i, m in enumerate(path) if m in store_nodes]
+                if not idx:
                     continue
-                break
-            break
-    m_tag = next((v for k, v in tags_saved.items() if 'ismethod' in k), None)
-    s_tag = next((v for k, v in tags_saved.items() if 'isinstance(value, Savable)' in k), None)
-    chk.ob('TAB-member-kinds', sm, m_tag is not None and m_tag[1] == 'value.__name__', 'a bound method member is saved by name', kind='method-saved-by-name')
-    chk.ob('TAB-member-kinds', sm, s_tag is not None and s_tag[1] is not None and s_tag[1].startswith('value.save('), 'a Savable member is saved through its own save()', kind='savable-saved-nested')
-    guard = m_tag is not None and any(isinstance(s, ast.If) and '__self__ is not self' in norm(s.test) and any(isinstance(x, ast.Raise) for x in s.body) for s in m_tag[2].body)
+                i = idx[0]
+                stored = norm(value_on_path(path, i, path[i].ast.value))
+                base = norm(value_on_path(path, i, ast.Name(id=subj, ctx=ast.Load())))
+                # the first value ever bound to the subject on this path (the member itself)
+                first = None
+                for j in range(i):
+                    a = path[j].ast
+                    if path[j].kind == 'stmt' and isinstance(a, ast.Assign) and norm(a.targets[0]) == subj:
+                        first = norm(value_on_path(path, j, a.value))
+                        break
+                first = first or subj
+                want = f'{first}.__name__' if val[M] else (f'{first}.save()' if val[S] else f'copy.deepcopy({first})')
+                seen_kinds.add('m' if val[M] else ('S' if val[S] else 'plain'))
+                if stored != want:
+                    dev.append((dict(val), stored, want))
+                tcalls = [c for m in path[:i] for c in (walk_shallow(m.expr()) if m.expr() is not None else []) if isinstance(c, ast.Call) and last_name(c) == '_set_meta_type']
+                tvals = [prog.fold(sm.module, c.args[2]) for c in tcalls if len(c.args) >= 3]
+                if val[M]:
+                    m_tag = tvals[0] if len(tvals) == 1 else None
+                    if len(tvals) != 1:
+                        dev.append((dict(val), f'tags {tvals}', 'one method tag'))
+                elif val[S]:
+                    s_tag = tvals[0] if len(tvals) == 1 else None
+                    if len(tvals) != 1:
+                        dev.append((dict(val), f'tags {tvals}', 'one savable tag'))
+                elif tvals:
+                    dev.append((dict(val), f'tags {tvals}', 'no tag for a plain value'))
+                if tcalls and not all(len(c.args) >= 2 and norm(c.args[0]) == sm.params[2] and norm(c.args[1]) == loopvar for c in tcalls):
+                    dev.append((dict(val), 'tag written for another member / state', ''))
+        chk.ob('TAB-member-kinds', sm, not dev and seen_kinds == {'m', 'S', 'plain'},
+               'decision table over (is a bound method, is a Savable): a method is stored by name, a Savable through its own save(), anything else as a deep copy; the kind is '
+               'recorded as a meta tag for exactly the first two' + (f'; deviations {dev[:2]}' if dev else ''), kind='save-kinds')
+    guard = any(isinstance(n, ast.If) and '__self__ is not self' in norm(n.test) and any(isinstance(x, ast.Raise) for x in n.body) for n in ast.walk(sm.node))
     chk.ob('TAB-member-kinds', sm, guard, 'methods of other objects are refused', kind='foreign-method-refused')
-    store = [n for n in ast.walk(sm.node) if isinstance(n, ast.Assign) and isinstance(n.targets[0], ast.Subscript) and norm(n.targets[0].slice) == 'member' and norm(n.value) == 'value']
-    chk.ob('TAB-member-kinds', sm, len(store) == 1, 'every member is stored under its own name', kind='stored-under-name')
-    loaded = {}
+    # _get_value reverses exactly those tags
+    ffg = chk.ctx.facts.analyse(gv)
+    gcfg = ffg.cfg
+    tagvar = None
     for n in ast.walk(gv.node):
-        if isinstance(n, ast.If) and 'typ ==' in norm(n.test) or (isinstance(n, ast.If) and '== typ' in norm(n.test)):
-            cur = n
-            while True:
-                t = cur.test
-                if isinstance(t, ast.Compare):
-                    tagv = prog.fold(gv.module, t.comparators[0])
-                    conv = [s for s in cur.body if isinstance(s, ast.Assign) and norm(s.targets[0]) == 'value']
-                    loaded[tagv] = norm(conv[0].value) if conv else None
-                if len(cur.orelse) == 1 and isinstance(cur.orelse[0], ast.If):
-                    cur = cur.orelse[0]
-                    continue
-                break
-            break
-    ok_m = m_tag is not None and loaded.get(m_tag[0]) == 'getattr(self, value)'
-    chk.ob('TAB-member-kinds', gv, ok_m, f'the method tag {m_tag[0] if m_tag else None!r} is reversed by re-binding the name on the new object', kind='method-rebound')
-    ok_s = s_tag is not None and (loaded.get(s_tag[0]) or '').startswith('Savable.load(value') and 'load_context' in (loaded.get(s_tag[0]) or '')
-    chk.ob('TAB-member-kinds', gv, ok_s, f'the Savable tag {s_tag[0] if s_tag else None!r} is reversed by loading the nested state with the same load context', kind='savable-reloaded')
-    chk.ob('TAB-member-kinds', gv, m_tag is not None and s_tag is not None and m_tag[0] != s_tag[0] and m_tag[0] is not None and s_tag[0] is not None,
-           'the two tags are distinct constants', kind='tags-distinct')
+        if isinstance(n, ast.Assign) and isinstance(n.value, ast.Call) and last_name(n.value) == '_get_meta_type' and isinstance(n.targets[0], ast.Name):
+            tagvar = n.targets[0].id
+    chk.ob('TAB-member-kinds', gv, tagvar is not None and m_tag is not None and s_tag is not None and m_tag != s_tag, 'the two kind tags are distinct constants, read back by _get_value',
+           kind='tags-distinct')
+    if tagvar is not None and m_tag is not None and s_tag is not None:
+        consts = {}
+        for t in gcfg.nodes:
+            if t.kind == 'test':
+                for x in ast.walk(t.ast.test):
+                    if isinstance(x, ast.Compare) and len(x.ops) == 1 and norm(x.left) == tagvar:
+                        consts[prog.fold(gv.module, x.comparators[0])] = leaf(ffg, x)[0]
+        dev = []
+        if m_tag in consts and s_tag in consts:
+            A, B = consts[m_tag], consts[s_tag]
+            raw = f'{gv.params[1]}[{gv.params[2]}]'
+            for val in valuations([A, B], lambda v: not (v[A] and v[B])):
+                for path in paths_under(ffg, val, frozen=[tagvar]):
+                    rets = [i for i, m in enumerate(path) if m.kind == 'return']
+                    if not rets or path[-1] is not gcfg.exit:
+                        continue
+                    i = rets[-1]
+                    got = norm(value_on_path(path, i, path[i].ast.value))
+                    want = f'getattr(self, {raw})' if val[A] else (f'Savable.load({raw}, {gv.params[3]})' if val[B] else raw)
+                    if got != want:
+                        dev.append((dict(val), got, want))
+        else:
+            dev.append(('tags compared', sorted(map(str, consts)), [m_tag, s_tag]))
+        chk.ob('TAB-member-kinds', gv, not dev, f'decision table over the tag read back: {m_tag!r} re-binds the named method on the new object, {s_tag!r} loads the nested state with the same '
+               f'load context, no tag hands the stored value back' + (f'; deviations {dev[:2]}' if dev else ''), kind='load-kinds')
     lm = prog.func('persistence.Savable.load_members')
     ok = any(isinstance(c, ast.Call) and norm(c.func) == 'setattr' and [norm(a) for a in c.args[:2]] == ['self', 'member'] and '_get_value' in norm(c.args[2]) for c in calls_in_func(lm))
     chk.ob('TAB-member-kinds', lm, ok, 'load_members assigns every declared member from _get_value', kind='load-assigns-all')
@@ -188,7 +236,9 @@ def run(chk: Check) -> None:
                f'{"an instance: the loaded class called" if records_class else "that object itself"} -- its consumers call load_object()/identify_object() on it '
                f'(found: {norm(val)})', node=uses[0], kind='class-vs-instance')
     ci = [c for c in calls_in_func(sv, '_set_class_name')]
-    ok = len(ci) == 1 and isinstance(ci[0].args[1], ast.Call) and norm(ci[0].args[1].func) == 'loader.identify_object' and norm(ci[0].args[1].args[0]) in ('self.__class__', 'type(self)')
+    from ..rules import Resolver
+    ident_arg = Resolver(sv).expand(ci[0].args[1]) if len(ci) == 1 and len(ci[0].args) >= 2 else None
+    ok = isinstance(ident_arg, ast.Call) and norm(ident_arg.func) == 'loader.identify_object' and norm(ident_arg.args[0]) in ('self.__class__', 'type(self)')
     chk.ob('PROV-loader-precedence', sv, ok, 'the class is identified by the loader in effect (custom if given, else default)', kind='class-identified-by-loader')
     ld = prog.func('persistence.Savable.load')
     lo = [c for c in calls_in_func(ld, 'load_object')]
